@@ -3,8 +3,9 @@
 (property text only; nothing from /verif)."""
 import json, sys, subprocess
 pid = sys.argv[1]
+suffix = sys.argv[2] if len(sys.argv) > 2 else ''
 prop = [json.loads(l) for l in open('/verif/properties.jsonl') if json.loads(l)['id'] == pid][0]
-wt = f'/tmp/wt-{pid}'
+wt = f'/tmp/wt-{pid}{suffix}'
 subprocess.run(['git','-C','/repo','worktree','remove','--force',wt],capture_output=True)
 subprocess.run(['git','-C','/repo','worktree','add','-q','--detach',wt,'HEAD'],check=True)
 text = f"""You are helping to evaluate a test/verification effort for the Go project smarthome-go/homescript (a statically typed scripting language: lexer, parser, analyzer, bytecode compiler, stack VM, tree-walking interpreter). You have your own scratch git worktree of the project at {wt} (work ONLY there; never touch /repo; do not read anything under /verif).
@@ -19,11 +20,11 @@ Code it is anchored in: {', '.join(prop['anchors']['files'])}
 Your task: write 4 INDEPENDENT, REALISTIC changes to the project's non-test Go source (the kind of slip or "improvement" a maintainer could plausibly commit), each of which BREAKS this property, and each of which
  (a) compiles (go build ./...),
  (b) leaves the project's existing test suite passing (go test -vet=off -count=1 ./... in {wt}),
- (c) comes with a demonstration: a Go test file (package homescript, to be placed in {wt}/homescript/, file name ending in _test.go, test function names prefixed TestSeed{pid}) that FAILS with the change applied and PASSES on the unchanged tree,
+ (c) comes with a demonstration: a Go test file (package homescript, to be placed in {wt}/homescript/, file name ending in _test.go, test function names prefixed TestSeed{pid}{suffix}) that FAILS with the change applied and PASSES on the unchanged tree,
  (d) needs something specific to manifest (a particular operand value, nesting, configuration, sequence of calls ...), i.e. is not visible on every run of every program.
 Make the 4 changes different in mechanism and, where possible, in location. Do not modify test files, build files or files whose name starts with zz_ (those are specification files that are not part of the product).
 
-For each change i = 1..4: start from a clean worktree (git -C {wt} checkout -- . && git -C {wt} clean -fdq), make the change, verify (a)-(d) yourself, then save into /tmp/seeds-{pid}/<i>/ :
+For each change i = 1..4: start from a clean worktree (git -C {wt} checkout -- . && git -C {wt} clean -fdq), make the change, verify (a)-(d) yourself, then save into /tmp/seeds-{pid}{suffix}/<i>/ :
   patch.diff     (git -C {wt} diff, must apply with `git apply` to a clean HEAD)
   demo_test.go   (the demonstration; top comment says where to copy it)
   meta.json      {{"property": "{pid}", "summary": "<one or two sentences: what was changed and where>", "needs": "<what it takes to manifest>", "demo_dir": "homescript"}}
